@@ -97,6 +97,7 @@ func c15One(c *fw.Ctx, kind string, src []byte) {
 	if perr != nil {
 		c.Nontrivial(string(src))
 	}
+	var sharedFset *token.FileSet // the caller's file set of the explicit entry point
 	type ep struct {
 		name string
 		call func() (*dst.File, error)
@@ -106,6 +107,7 @@ func c15One(c *fw.Ctx, kind string, src []byte) {
 		{"Decorator.ParseFile", func() (*dst.File, error) {
 			fset := token.NewFileSet()
 			fset.AddFile("pad", -1, 77)
+			sharedFset = fset
 			return decorator.NewDecorator(fset).ParseFile("in.go", src, parser.AllErrors)
 		}},
 		{"Decorator(goast).Parse", func() (*dst.File, error) {
@@ -174,6 +176,19 @@ func c15One(c *fw.Ctx, kind string, src []byte) {
 			_, _ = r.RestoreFile(f)
 		}); sig != "" {
 			c.Violate("panic/RestoreFile-extras", sig, "corruption="+kind+"\n"+detail, string(src))
+		}
+		// printing into the caller's own file set (which already holds files), twice with one restorer
+		if e.name == "Decorator.ParseFile" && sharedFset != nil {
+			if sig, detail := fw.Try(func() {
+				r := decorator.NewRestorer()
+				r.Fset = sharedFset
+				var b1, b2 bytes.Buffer
+				_ = r.Fprint(&b1, f)
+				_ = r.Fprint(&b2, dst.Clone(f).(*dst.File))
+			}); sig != "" {
+				c.Violate("panic/Fprint-into-shared-fileset", sig, "corruption="+kind+"\n"+detail, string(src))
+			}
+			c.Count("printed_into_shared_fileset", 1)
 		}
 	}
 }
